@@ -236,10 +236,15 @@ struct Value {
             s << int64;
             break;
         case T_DATA:
-            if (data.size() < 5) {
-                // we need to push this as a number
-                int64_t i = int_value();
-                s << i;
+            // the bytes are pushed exactly as given; a single byte 1..16 or 0x81 has a dedicated opcode which is the
+            // minimal way to push it (CScript's operator<< below picks the shortest length prefix for everything else,
+            // and OP_0 for the empty string)
+            if (data.size() == 1 && data[0] >= 1 && data[0] <= 16) {
+                s << (opcodetype)(OP_1 + data[0] - 1);
+                break;
+            }
+            if (data.size() == 1 && data[0] == 0x81) {
+                s << OP_1NEGATE;
                 break;
             }
             // fall-through
